@@ -3,6 +3,7 @@ package PVM
 import (
 	"bytes"
 	"fmt"
+	"sort"
 	"testing"
 
 	"github.com/New-JAMneration/JAM-Protocol/internal/zzverif/refpvm"
@@ -68,8 +69,9 @@ func vByteAt(pages map[uint32]vPageSnap, addr uint64) (byte, MemoryAccess, bool)
 
 // vGenMemProgram: straight-line program of loads/stores of every width and addressing form aimed at
 // page edges, with load_imm_64 setting the base registers. Ends in trap.
-func vGenMemProgram(r vh.R) refpvm.Case {
-	pages := refpvm.GenPages(r)
+func vGenMemProgram(r vh.R) refpvm.Case { return vGenMemProgramOn(r, refpvm.GenPages(r)) }
+
+func vGenMemProgramOn(r vh.R, pages []refpvm.PageSpec) refpvm.Case {
 	a := &refpvm.Asm{}
 	a.Label()
 	n := 3 + r.IntN(14)
@@ -353,6 +355,17 @@ func TestVerifC05(t *testing.T) {
 		}
 	}
 
+	// ---- part C: page maps produced by the REAL `machine` / `pages` / `poke` host calls of an inner machine ------------
+	// (pages made read-only, read-write, or inaccessible again by page calls; contents zeroed or kept per mode)
+	ni := h.N(6000, 120000)
+	for i := 0; i < ni; i++ {
+		if !h.Mine("inner", i) {
+			continue
+		}
+		h.CaseLight("inner", i)
+		vInnerPagesCase(h, i, h.Rng("inner", i))
+	}
+
 	// ---- part B: heap growth through sbrk on initialised standard programs ------------------------
 	ns := h.N(6000, 100000)
 	for i := 0; i < ns; i++ {
@@ -431,5 +444,178 @@ func TestVerifC05(t *testing.T) {
 		if i < 1 {
 			h.Sample(map[string]any{"stratum": "sbrk", "program": vh.Hex(blob), "o": oLen, "w": wLen, "z": z, "s": s})
 		}
+	}
+}
+
+
+// vInnerPagesCase: a script of page calls decides the inner machine's page map (model: GP B.8 `pages`: mode 0 inaccessible,
+// 1/3 read-only, 2/4 read-write, modes 3/4 refused with HUH when a page of the range is inaccessible); a load/store
+// program aimed at the edges of exactly those pages is stored with `machine`, the script is executed through the real
+// host calls, the resulting page map is compared with the model and the program is then stepped under the frame monitor
+// on a copy of the inner machine's memory, with both engines.
+func vInnerPagesCase(h *vh.H, ci int, r vh.R) {
+	type call struct{ p, c, md uint64 }
+	var script []call
+	model := map[uint32]refpvm.Access{}
+	touched := map[uint32]bool{}
+	nc := 2 + r.IntN(7)
+	for k := 0; k < nc; k++ {
+		base := []uint64{16, 30, 31, 32, 33, 34, 47, 48, 49}[r.IntN(9)]
+		cl := call{p: base, c: uint64(1 + r.IntN(4)), md: uint64(r.IntN(5))}
+		if k >= 2 && r.IntN(3) == 0 && len(touched) > 0 {
+			cl.md = 0 // withdraw access again
+			var ks []uint32
+			for pg := range touched {
+				ks = append(ks, pg)
+			}
+			sort.Slice(ks, func(a, b int) bool { return ks[a] < ks[b] })
+			cl.p, cl.c = uint64(ks[r.IntN(len(ks))]), uint64(1+r.IntN(2))
+		}
+		script = append(script, cl)
+		refused := false
+		if cl.md > 2 {
+			for pg := cl.p; pg < cl.p+cl.c; pg++ {
+				if model[uint32(pg)] == refpvm.None {
+					refused = true
+				}
+			}
+		}
+		if refused {
+			continue
+		}
+		for pg := cl.p; pg < cl.p+cl.c; pg++ {
+			touched[uint32(pg)] = true
+			switch cl.md {
+			case 0:
+				delete(model, uint32(pg))
+			case 1, 3:
+				model[uint32(pg)] = refpvm.RO
+			default:
+				model[uint32(pg)] = refpvm.RW
+			}
+		}
+	}
+	var specs []refpvm.PageSpec
+	var tk []uint32
+	for pg := range touched {
+		tk = append(tk, pg)
+	}
+	sort.Slice(tk, func(a, b int) bool { return tk[a] < tk[b] })
+	withdrawn := 0
+	for _, pg := range tk {
+		specs = append(specs, refpvm.PageSpec{No: pg, Acc: model[pg]})
+		if model[pg] == refpvm.None {
+			withdrawn++
+		}
+	}
+	if len(specs) == 0 {
+		return // every page call of the script is refused: nothing to look at
+	}
+	c := vGenMemProgramOn(r, specs)
+
+	// outer machine and the real calls
+	mem := &Memory{Pages: map[uint32]*Page{}}
+	for p := uint32(0); p < vRWN; p++ {
+		mem.Pages[vRW0/ZP+p] = &Page{Value: r.Bytes(ZP), Access: MemoryReadWrite}
+	}
+	outer, _ := DeBlobProgramCode(refpvm.EncodeBlob([]byte{0}, []bool{true}, nil, 1))
+	add := HostCallArgs{RefineArgs: RefineArgs{IntegratedPVMMap: IntegratedPVMMap{}}, Program: &outer}
+	gas := Gas(1_000_000)
+	var regs Registers
+	do := func(op OperationType) (uint64, bool) {
+		var out OmegaOutput
+		pn, msg, st := vh.Guard(func() {
+			out = RefineOmegas[op](OmegaInput{Operation: op, VM: &VMState{Registers: &regs, Memory: mem, Gas: &gas}, Addition: add, HostCalls: RefineOmegas})
+		})
+		if pn {
+			h.Viol("inner", ci, "", "go-panic-in-host-call", map[string]any{"op": opName(op), "panic": msg, "stack": st})
+			return 0, false
+		}
+		if out.ExitReason != ExitContinue {
+			h.Viol("inner", ci, "", "host-call-did-not-continue", map[string]any{"op": opName(op), "exit": out.ExitReason.String()})
+			return 0, false
+		}
+		add = out.Addition
+		return regs[7], true
+	}
+	copy(mem.Pages[vRW0/ZP].Value, c.Blob)
+	if len(c.Blob) > ZP {
+		return
+	}
+	regs[7], regs[8], regs[9] = vRW0, uint64(len(c.Blob)), 0
+	n, ok := do(MachineOp)
+	if !ok {
+		return
+	}
+	if _, isErr := vErrCodes[n]; isErr {
+		h.Viol("inner", ci, "", "machine-rejected-a-valid-program", map[string]any{"blob": vh.Hex(c.Blob), "w7": fmt.Sprintf("%#x", n)})
+		return
+	}
+	for k, cl := range script {
+		regs[7], regs[8], regs[9], regs[10] = n, cl.p, cl.c, cl.md
+		if _, ok := do(PagesOp); !ok {
+			return
+		}
+		// fill read-write pages with data through `poke` so that loads return something else than zero
+		if cl.md == 2 && r.Bool() {
+			src := uint64(vRW0 + ZP)
+			regs[7], regs[8], regs[9], regs[10] = n, src, cl.p*ZP+uint64(r.IntN(ZP-64)), uint64(1+r.IntN(64))
+			if _, ok := do(PokeOp); !ok {
+				return
+			}
+		}
+		_ = k
+	}
+	im, exists := add.RefineArgs.IntegratedPVMMap[n]
+	if !exists {
+		h.Viol("inner", ci, "", "machine-missing-after-creation", nil)
+		return
+	}
+	// the page map the calls produced vs. the model (a page object marked inaccessible counts as no access)
+	for _, pg := range tk {
+		got := refpvm.None
+		if pp, ok := im.Memory.Pages[pg]; ok {
+			switch pp.Access {
+			case MemoryReadOnly:
+				got = refpvm.RO
+			case MemoryReadWrite:
+				got = refpvm.RW
+			}
+		}
+		if got != model[pg] {
+			h.Viol("inner", ci, "", "page-call-produced-another-access-than-specified", map[string]any{"page": pg, "got": int(got), "model": int(model[pg]), "script": fmt.Sprint(script)})
+			return
+		}
+	}
+	for pg, pp := range im.Memory.Pages {
+		if !touched[pg] && pp.Access != MemoryInaccessible {
+			h.Viol("inner", ci, "", "page-call-mapped-a-page-outside-its-range", map[string]any{"page": pg, "script": fmt.Sprint(script)})
+			return
+		}
+	}
+	engine := []string{"step", "block"}[ci%2]
+	mk := func(g int64) (*vImpl, string) {
+		prog, er := DeBlobProgramCode(append([]byte(nil), c.Blob...))
+		if er != ExitContinue {
+			return nil, "deblob-rejected"
+		}
+		v := &vImpl{prog: prog, engine: engine}
+		cp := im.Memory
+		cp.Pages = map[uint32]*Page{}
+		for k, pp := range im.Memory.Pages {
+			cp.Pages[k] = &Page{Value: append([]byte(nil), pp.Value...), Access: pp.Access}
+		}
+		v.interp = NewInterpreter(&v.prog, Registers(c.Regs), &cp, Gas(g))
+		return v, ""
+	}
+	vFrameCheck(h, "inner", ci, c.Blob, 0, c.Regs, mk, int(c.Gas), 1<<20, 0, 0)
+	h.Inc("inner_page_maps")
+	h.Count("inner_pages_withdrawn", int64(withdrawn))
+	if withdrawn > 0 {
+		h.Inc("inner_page_maps_with_withdrawn_pages")
+	}
+	h.Distinct("inner", c.Blob, fmt.Sprint(script))
+	if ci < 2 {
+		h.Sample(map[string]any{"stratum": "inner", "page_calls": fmt.Sprint(script), "blob": vh.Hex(c.Blob)})
 	}
 }
